@@ -375,11 +375,17 @@ func tampered(s *srcChain, hgt int64, kind string, arg int) (blk *gtypes.Block, 
 		ps := make([]*gtypes.Vote, n)
 		for j := range ps {
 			key := val2Key
-			if arg%2 == 1 {
+			if arg%3 == 1 {
 				key = outsiderKey
 			}
 			addr := key.PubKey().Address()
 			if b.LastCommit.Precommits[j] != nil {
+				if arg%3 == 2 && n > 1 {
+					// only the forger's own precommit, in its own place: a genuine signature of a
+					// validator (when the second validator is one at that height) with less than a
+					// third of the power
+					continue
+				}
 				addr = b.LastCommit.Precommits[j].ValidatorAddress
 			}
 			ps[j] = signedVote(key, addr, j, hgt-1, v.Round, id)
